@@ -2,6 +2,7 @@ package catalog
 
 import (
 	"encoding/json"
+	"sync"
 
 	"github.com/jsightapi/jsight-schema-core/bytes"
 	"github.com/jsightapi/jsight-schema-core/notations/regex"
@@ -11,9 +12,24 @@ import (
 
 type ExchangeRegexSchema struct {
 	*regex.RSchema
+
+	exampleOnce sync.Once
+	example     []byte
+	exampleErr  error
 }
 
-func (e ExchangeRegexSchema) MarshalJSON() ([]byte, error) {
+// Example returns an example of a string matching the regular expression.
+// The underlying generator is stateful and produces a new string on every call,
+// so the example is generated only once in order to every serialization of the
+// same schema gives the same result.
+func (e *ExchangeRegexSchema) Example() ([]byte, error) {
+	e.exampleOnce.Do(func() {
+		e.example, e.exampleErr = e.RSchema.Example()
+	})
+	return e.example, e.exampleErr
+}
+
+func (e *ExchangeRegexSchema) MarshalJSON() ([]byte, error) {
 	data := struct {
 		Content  interface{}             `json:"content,omitempty"`
 		Example  string                  `json:"example,omitempty"`
@@ -39,7 +55,7 @@ func (e ExchangeRegexSchema) MarshalJSON() ([]byte, error) {
 	return json.Marshal(data)
 }
 
-func (e ExchangeRegexSchema) Notation() notation.SchemaNotation {
+func (e *ExchangeRegexSchema) Notation() notation.SchemaNotation {
 	return notation.SchemaNotationRegex
 }
 
